@@ -149,13 +149,6 @@ theorem fetchWith_fresh_served (cfg : Cfg) (s : State P) (k v c r : Nat)
         · intro h; simp at h
       · intro h; simp at h
 
-theorem hold_ret (cfg : Cfg) (ops : PolicyOps P) (p0 : P) (o : Oracle) (s : State P) (k : Nat) :
-    (stepOp cfg ops p0 o s (.hold k)).2 = .val (s.resetLogs.get cfg k).2 := by
-  simp only [stepOp]
-  generalize s.resetLogs.get cfg k = r
-  obtain ⟨s', v⟩ := r
-  cases v <;> rfl
-
 /-- **C12, read paths.**  For every configuration, policy, oracle and state, every `(key, value)`
     pair handed out by `get`/`fetch`, `peek`, `hold` (a `fetch` keeping the `Arc`), `multiget`
     (sync and async), the batching iterator and the snapshot iterator run without interleaving,
@@ -239,6 +232,11 @@ theorem C12_reads_partial (cfg : Cfg) (ops : PolicyOps P) (p0 : P) (o : Oracle) 
       exact fetchWith_fresh_served cfg s.resetLogs k v c x hr
     | _ => simp [readsOf] at hp
   | _ => simp [readsOf] at hp
+
+/-- non-vacuity of `fetchWith_fresh_served`: see the `fetchWith` example below `exSt` -/
+example : (State.fetchWith (P := Unit) { ttl := some 3000 }
+    { map := [(1, { vid := 101, cost := 1, expiresAt := 8000 })], now := 7999 } 1 102 1).2 = .loaded 101 false false := by
+  decide
 
 /-- a state with one live and one TTL-expired binding -/
 def exSt : State Unit :=
@@ -419,6 +417,267 @@ theorem fetchWith_miss_loads (cfg : Cfg) (s : State P) (k v c r : Nat)
 /-- non-vacuity: a miss on an expired binding outside the grace window -/
 example : (State.fetchWith (P := Unit) { ttl := some 3000, swr := some 1000 }
     { map := [(1, { vid := 101, cost := 1, expiresAt := 8000 })], now := 9000 } 1 102 1).2 = .loaded 102 false true := by
+  decide
+
+/-! ### the deadlines a write sets (default TTL, per-item TTL, idle clock) -/
+
+/-- `insert_with_ttl(k, v, cost, ttl)` at time `now` binds `k` to `v` with the PER-ITEM deadline
+    `now + ttl` (whatever the cache-wide TTL is) and, in a TTI cache, a fresh idle clock; so by
+    `Unexpired` the binding counts as unexpired at `t` exactly when `t < now + ttl` and
+    `t < now + tti`, and by `C12_reads_partial` it is served by the read paths only then.
+    Stated for the async handle (no maintenance inside the call) and, for the sync handle, for a
+    policy that names no victims (the opportunistic maintenance then removes nothing). -/
+theorem insertTtl_sets_deadline (cfg : Cfg) (ops : PolicyOps P) (p0 : P) (o : Oracle) (s : State P)
+    (a : Bool) (k vid cost ttl : Nat) (h : a = true ∨ NoVictims ops) :
+    ∃ e', lookup (stepOp cfg ops p0 o s (.insertTtl a k vid cost ttl)).1.map k = some e' ∧ e'.vid = vid ∧
+      e'.cost = cost ∧ e'.expiresAt = s.now + ttl ∧ (∀ d, cfg.tti = some d → e'.lastAccessed = s.now) := by
+  obtain ⟨t, ht⟩ := insertCore_map cfg s.resetLogs k (Entry.mkCustom vid cost s.now (s.now + ttl) cfg.tti) (some ttl) true
+  have hl : lookup (s.resetLogs.insertCore cfg k (Entry.mkCustom vid cost s.now (s.now + ttl) cfg.tti) (some ttl) true).map k
+      = some { Entry.mkCustom vid cost s.now (s.now + ttl) cfg.tti with timer := t } := by
+    rw [ht]; exact lookup_put_self _ _ _
+  have hfin : ∀ e', e' = { Entry.mkCustom vid cost s.now (s.now + ttl) cfg.tti with timer := t } →
+      e'.vid = vid ∧ e'.cost = cost ∧ e'.expiresAt = s.now + ttl ∧ (∀ d, cfg.tti = some d → e'.lastAccessed = s.now) := by
+    intro e' he'; subst he'
+    refine ⟨rfl, rfl, rfl, ?_⟩
+    intro d hd; simp [Entry.mkCustom, hd]
+  cases a with
+  | true => exact ⟨_, hl, hfin _ rfl⟩
+  | false =>
+    rcases h with h | h
+    · cases h
+    · rcases (opportunistic_mstep (X := fun _ => True) cfg ops o
+          (s.resetLogs.insertCore cfg k (Entry.mkCustom vid cost s.now (s.now + ttl) cfg.tti) (some ttl) true) k).look k
+        with h' | ⟨_, hc⟩
+      · exact ⟨_, h'.trans hl, hfin _ rfl⟩
+      · exact absurd hc (h.not_nominates k)
+
+/-- `insert(k, v, cost)`: the deadline is `now + cache TTL`, or none (`0`) without a cache TTL. -/
+theorem insert_sets_deadline (cfg : Cfg) (ops : PolicyOps P) (p0 : P) (o : Oracle) (s : State P)
+    (a : Bool) (k vid cost : Nat) (h : a = true ∨ NoVictims ops) :
+    ∃ e', lookup (stepOp cfg ops p0 o s (.insert a k vid cost)).1.map k = some e' ∧ e'.vid = vid ∧
+      e'.cost = cost ∧ e'.expiresAt = (match cfg.ttl with | some d => s.now + d | none => 0) ∧
+      (∀ d, cfg.tti = some d → e'.lastAccessed = s.now) := by
+  obtain ⟨t, ht⟩ := insertCore_map cfg s.resetLogs k (Entry.mk' vid cost s.now cfg.ttl cfg.tti) cfg.ttl true
+  have hl : lookup (s.resetLogs.insertCore cfg k (Entry.mk' vid cost s.now cfg.ttl cfg.tti) cfg.ttl true).map k
+      = some { Entry.mk' vid cost s.now cfg.ttl cfg.tti with timer := t } := by
+    rw [ht]; exact lookup_put_self _ _ _
+  have hfin : ∀ e', e' = { Entry.mk' vid cost s.now cfg.ttl cfg.tti with timer := t } →
+      e'.vid = vid ∧ e'.cost = cost ∧ e'.expiresAt = (match cfg.ttl with | some d => s.now + d | none => 0) ∧
+      (∀ d, cfg.tti = some d → e'.lastAccessed = s.now) := by
+    intro e' he'; subst he'
+    refine ⟨rfl, rfl, rfl, ?_⟩
+    intro d hd; simp [Entry.mk', hd]
+  cases a with
+  | true => exact ⟨_, hl, hfin _ rfl⟩
+  | false =>
+    rcases h with h | h
+    · cases h
+    · rcases (opportunistic_mstep (X := fun _ => True) cfg ops o
+          (s.resetLogs.insertCore cfg k (Entry.mk' vid cost s.now cfg.ttl cfg.tti) cfg.ttl true) k).look k
+        with h' | ⟨_, hc⟩
+      · exact ⟨_, h'.trans hl, hfin _ rfl⟩
+      · exact absurd hc (h.not_nominates k)
+
+/-- non-vacuity: a per-item TTL of 300 in a cache whose TTL is 1000: served at +299, not at +300 -/
+example : (run cfgTtl nullOps () (State.fresh cfgTtl () 5000)
+    [(.insertTtl false 1 101 1 300, {}), (.advance 299, {}), (.get 1, {}), (.advance 1, {}), (.get 1, {})]).2
+    = [.unit, .unit, .val (some 101), .unit, .val none] := by decide
+
+/-! ### an unexpired entry of an unbounded cache is not reported missing -/
+
+/-- the calls whose job is to remove bindings, and `run_maintenance` (treated separately below) -/
+def removalOp : Op → Bool
+  | .runMaintenance => true
+  | .remove _ => true
+  | .invalidate _ => true
+  | .multiRemove _ => true
+  | .clear => true
+  | .restore => true
+  | _ => false
+
+/-- the value ids a call may write -/
+def writesOf : Op → List Nat
+  | .insert _ _ vid _ => [vid]
+  | .insertTtl _ _ vid _ _ => [vid]
+  | .orInsert _ vid _ => [vid]
+  | .compute _ vid => [vid]
+  | .fetchWith _ vid _ => [vid]
+  | .multiInsert items => items.map (fun x => x.2.1)
+  | _ => []
+
+/-- **C12, unbounded cache, every call but `run_maintenance`.**  If the policy never names a
+    victim when it admits a key (`NoVictims`: the policy of an unbounded cache), then no call other
+    than the removal calls (`remove`, `invalidate`, `multi_remove`, `clear`, rebuilding the cache
+    from a snapshot) and `run_maintenance` unbinds a key: every key visibly bound before the call
+    is visibly bound after it, to an entry with the same value or with a value written by this call.
+    (So a key whose entry is unexpired cannot start being reported missing by such a call; by
+    `peek_serves_unexpired`/`get_serves_unexpired` read the other way round, a bound unexpired key
+    IS served.)
+
+    `_partial`: `run_maintenance` is excluded — for it the clause is FALSE on the code (F7,
+    `C12_fails_F7`; F19, `C12_fails_F19`); what holds there is `runMaintenance_removes_only` and
+    `runMaintenance_unbounded_partial`. -/
+theorem C12_unbounded_partial (cfg : Cfg) (ops : PolicyOps P) (p0 : P) (o : Oracle) (s : State P) (op : Op)
+    (hnv : NoVictims ops) (hop : removalOp op = false) :
+    ∀ k e, lookup s.map k = some e →
+      ∃ e', lookup (stepOp cfg ops p0 o s op).1.map k = some e' ∧ (e'.vid = e.vid ∨ e'.vid ∈ writesOf op) := by
+  show Kept (writesOf op) s.map (stepOp cfg ops p0 o s op).1.map
+  have hflush : ∀ (W : List Nat) (t : State P), Kept W t.map (t.flush cfg ops o).map :=
+    fun W t => (flush_mstep (X := fun _ => True) cfg ops o t).kept hnv.not_nominates
+  have hopp : ∀ (W : List Nat) (t : State P) (k : Nat), Kept W t.map (t.opportunistic cfg ops o k).map :=
+    fun W t k => (opportunistic_mstep (X := fun _ => True) cfg ops o t k).kept hnv.not_nominates
+  cases op with
+  | get k => exact get_kept _ cfg s.resetLogs k
+  | peek k => exact Kept.refl _ _
+  | occupied k => exact Kept.refl _ _
+  | insert a k vid cost =>
+    have h1 := insertCore_kept [vid] cfg s.resetLogs k (Entry.mk' vid cost s.now cfg.ttl cfg.tti) cfg.ttl true (by simp [Entry.mk'])
+    cases a with
+    | true => exact h1
+    | false => exact h1.trans (hopp _ _ k)
+  | insertTtl a k vid cost ttl =>
+    have h1 := insertCore_kept [vid] cfg s.resetLogs k (Entry.mkCustom vid cost s.now (s.now + ttl) cfg.tti) (some ttl) true
+      (by simp [Entry.mkCustom])
+    cases a with
+    | true => exact h1
+    | false => exact h1.trans (hopp _ _ k)
+  | remove k => cases hop
+  | invalidate k => cases hop
+  | clear => cases hop
+  | advance d => exact Kept.refl _ _
+  | runMaintenance => cases hop
+  | metrics => exact hflush _ s.resetLogs
+  | orInsert k vid cost => exact orInsert_kept cfg s.resetLogs k vid cost
+  | compute k vid => exact compute_kept s.resetLogs k vid
+  | fetchWith k vid cost => exact fetchWith_kept cfg s.resetLogs k vid cost
+  | multiget a ks =>
+    rw [multiget_map]
+    cases a with
+    | false => exact multigetSync_kept _ cfg ks s.resetLogs []
+    | true => exact multigetAsync_kept _ cfg ops (groupByShard cfg ks) s.resetLogs []
+  | multiInsert items =>
+    refine foldl_kept _ _ items s.resetLogs ?_
+    rintro t ⟨k, vid, cost⟩ hmem
+    exact insertCore_kept _ cfg t k _ cfg.ttl false
+      (List.mem_map.2 ⟨(k, vid, cost), hmem, by simp [Entry.mk']⟩)
+  | multiRemove ks => cases hop
+  | iter b inter =>
+    show Kept _ s.resetLogs.map (s.resetLogs.iterAll cfg ops o b inter).1.map
+    rw [iterAll_map]
+    exact hflush _ _
+  | iterSnapshot inter =>
+    exact (hflush _ s.resetLogs).trans (snapDrive_kept _ cfg _ _ inter [])
+  | snapshot => exact hflush _ s.resetLogs
+  | restore => cases hop
+  | hold k => exact hold_kept _ cfg ops p0 o s k
+  | release =>
+    intro k e he
+    refine ⟨{ e with pinned := false }, ?_, Or.inl rfl⟩
+    show lookup (s.map.map (fun (p : Nat × Entry) => (p.1, { p.2 with pinned := false }))) k = _
+    rw [lookup_map_fst (fun (p : Nat × Entry) => (p.1, { p.2 with pinned := false })) (fun _ => rfl), he]
+    rfl
+  | gate closed =>
+    cases closed with
+    | true => exact Kept.refl _ _
+    | false => exact Kept.refl _ _
+
+/-- the same in terms of membership: no binding disappears -/
+theorem C12_unbounded_mem_partial (cfg : Cfg) (ops : PolicyOps P) (p0 : P) (o : Oracle) (s : State P) (op : Op)
+    (hnv : NoVictims ops) (hop : removalOp op = false) :
+    ∀ k e, (k, e) ∈ s.map → ∃ e', (k, e') ∈ (stepOp cfg ops p0 o s op).1.map := by
+  intro k e hm
+  obtain ⟨e0, h0⟩ := lookup_isSome_of_mem hm
+  obtain ⟨e', h', _⟩ := C12_unbounded_partial cfg ops p0 o s op hnv hop k e0 h0
+  exact ⟨e', lookup_mem h'⟩
+
+/-- non-vacuity: the null policy has no victims, `insert` is not a removal call, `exSt` has bindings -/
+example : NoVictims nullOps ∧ removalOp (.insert false 2 7 1) = false ∧
+    lookup exSt.map 1 = some { vid := 101, cost := 1, expiresAt := 9000 } ∧
+    lookup (stepOp cfgTtl nullOps () {} exSt (.insert false 2 7 1)).1.map 1 = some { vid := 101, cost := 1, expiresAt := 9000 } :=
+  ⟨nullOps_noVictims, rfl, by decide, by decide⟩
+
+/-! ### what `run_maintenance` may remove -/
+
+/-- `run_maintenance` never rebinds a key: each key is bound exactly as before, or unbound. -/
+theorem runMaintenance_never_rebinds (cfg : Cfg) (ops : PolicyOps P) (p0 : P) (o : Oracle) (s : State P) (k : Nat) :
+    lookup (stepOp cfg ops p0 o s .runMaintenance).1.map k = lookup s.map k ∨
+    lookup (stepOp cfg ops p0 o s .runMaintenance).1.map k = none := by
+  rcases (runMaintenance_mstep cfg ops o s.resetLogs).look k with h | ⟨h, _⟩
+  · exact Or.inl h
+  · exact Or.inr h
+
+/-- **What `run_maintenance` removes.**  A key bound to `e` before the call and unbound after it
+    falls under one of:
+    * the cache has a TTI (the only configuration in which the expiry sampling pass runs) and `e`
+      was expired at the time of the call;
+    * the timer wheel of some shard, as it stood when the call started, fires the key on its next
+      tick (`cleanup_ttl_for_shard`);
+    * the policy nominated it: as a victim of an admission (`AdmitAndEvict`), or in the capacity pass.
+
+    A wheel firing is NOT an expiry: the wheel advances one tick per call whatever the clock says
+    (F7, `C12_fails_F7`) and timers outlive the binding they were set for (F19, `C12_fails_F19`), so
+    the second disjunct does not imply that `e` was expired — that is the hypothesis
+    `runMaintenance_unbounded_partial` needs. -/
+theorem runMaintenance_removes_only (cfg : Cfg) (ops : PolicyOps P) (p0 : P) (o : Oracle) (s : State P)
+    (k : Nat) (e : Entry) (hb : lookup s.map k = some e)
+    (hg : lookup (stepOp cfg ops p0 o s .runMaintenance).1.map k = none) :
+    (cfg.tti.isSome ∧ ¬ Unexpired e s.now cfg.tti) ∨
+    (∃ i w, i < cfg.nshards ∧ whL s.aux i = some w ∧ k ∈ w.advance.2) ∨
+    AdmitNominates ops k ∨ EvictNominates ops k := by
+  rcases (runMaintenance_mstep cfg ops o s.resetLogs).look k with h | ⟨_, hc⟩
+  · have h' : lookup (stepOp cfg ops p0 o s .runMaintenance).1.map k = lookup s.map k := h
+    rw [hg, hb] at h'; cases h'
+  · rcases hc with ⟨h1, e', he', hx⟩ | hc
+    · left
+      have : e' = e := by
+        have he2 : lookup s.map k = some e' := he'
+        rw [hb] at he2; cases he2; rfl
+      subst this
+      exact ⟨h1, (not_unexpired_iff e' s.now cfg.tti).1 hx⟩
+    · exact Or.inr hc
+
+/-- non-vacuity (this is the F7 situation): the fourth maintenance call removes key 1 -/
+def f7Pre : State Unit × List Ret :=
+  run cfgF7 nullOps () (State.fresh cfgF7 () 5000)
+    [(.insert false 1 101 1, {}), (.runMaintenance, {}), (.runMaintenance, {}), (.runMaintenance, {})]
+example : (lookup f7Pre.1.map 1).isSome = true ∧
+    lookup (stepOp cfgF7 nullOps () {} f7Pre.1 .runMaintenance).1.map 1 = none := by decide
+
+/-- **C12, unbounded cache, `run_maintenance`.**  With a policy that never nominates a victim, an
+    UNEXPIRED binding survives `run_maintenance` unchanged —
+
+    `_partial`: — PROVIDED no shard's timer wheel fires the key on its next tick.  That hypothesis
+    is what the code fails to derive from "unexpired" (F7: one tick per call, not per elapsed tick
+    duration; F19: timers of bindings dropped by `clear`/eviction/loader overwrite are never
+    cancelled): `C12_fails_F7`, `C12_fails_F19`. -/
+theorem runMaintenance_unbounded_partial (cfg : Cfg) (ops : PolicyOps P) (p0 : P) (o : Oracle) (s : State P)
+    (k : Nat) (e : Entry) (hnv : NoVictims ops) (hne : ∀ k, ¬ EvictNominates ops k)
+    (hb : lookup s.map k = some e) (hu : Unexpired e s.now cfg.tti)
+    (hwheel : ∀ i w, i < cfg.nshards → whL s.aux i = some w → k ∉ w.advance.2) :
+    lookup (stepOp cfg ops p0 o s .runMaintenance).1.map k = some e := by
+  rcases runMaintenance_never_rebinds cfg ops p0 o s k with h | h
+  · rw [h, hb]
+  · rcases runMaintenance_removes_only cfg ops p0 o s k e hb h with ⟨_, h1⟩ | ⟨i, w, h1, h2, h3⟩ | h1 | h1
+    · exact absurd hu h1
+    · exact absurd h3 (hwheel i w h1 h2)
+    · exact absurd h1 (hnv.not_nominates k)
+    · exact absurd h1 (hne k)
+
+/-- non-vacuity: in `exSt` (fresh wheels: nothing scheduled) key 1 is unexpired and no wheel fires it -/
+example : NoVictims nullOps ∧ (∀ k, ¬ EvictNominates nullOps k) ∧
+    lookup exSt.map 1 = some { vid := 101, cost := 1, expiresAt := 9000 } ∧
+    Unexpired { vid := 101, cost := 1, expiresAt := 9000 } exSt.now cfgTtl.tti ∧
+    (∀ i w, i < cfgTtl.nshards → whL exSt.aux i = some w → 1 ∉ w.advance.2) := by
+  refine ⟨nullOps_noVictims, nullOps_noEvict, by decide, ⟨Or.inr (by decide), fun d h => by cases h⟩, ?_⟩
+  intro i w hi hw
+  have hi0 : i = 0 := by
+    have : cfgTtl.nshards = 1 := rfl
+    omega
+  subst hi0
+  have : w = Wheel.new 60 1000 := by
+    have h2 : whL exSt.aux 0 = some (Wheel.new 60 1000) := by decide
+    rw [h2] at hw; cases hw; rfl
+  subst this
   decide
 
 end Fv.Props.C12
